@@ -734,7 +734,14 @@ def run(ctx):
                 "timeout class (0, sub-second, i64::MAX, > i64::MAX), random longer scripts; addresses: boundary ports/ips, path lengths around "
                 "107/108, 8-bit bytes at every boundary position; cmsg: 1..16 (253 thorough) descriptors x control lengths needed-8..needed+24, "
                 "4096, 16..24 x four kinds of garbage after the data (0xAA, zeros, stale valid-looking headers, random) x {guard page, tail}, "
-                "multi-message and foreign-type lists; real kernel fills for 0..33 (253) descriptors; distinct_nontrivial = distinct "
+                "multi-message and foreign-type lists; ARBITRARY buffer contents against a guard page (cmsgraw): valid lists of rights / "
+                "SCM_CREDENTIALS / unknown-level messages incl. zero-length payloads, msg_controllen moved into the last header / its "
+                "payload / beyond the data, every header's cmsg_len, level, type mutated one at a time (0, 15..33, +-1/3/4/8 around the "
+                "true value and around the space left, 2^31..2^64-1 incl. every overflow boundary), chains of minimal headers, random "
+                "fields and random bytes, each followed by zeros / stale valid-looking headers / random bytes; real kernel fills for "
+                "0..33 (253) descriptors; time-limited read on a stream from each of 12 constructor paths (Unix/TCP accept, "
+                "accept_with_timeout, try_accept, connect, connect_with_timeout, try_connect, connect_blocking) with a silent peer, "
+                "limit <= elapsed <= limit + 3 s; distinct_nontrivial = distinct "
                 "(stream, entry point / op, result kind, number of polls (0,1,2+), EINTR seen, timeout class | truncated / exact / roomy control "
                 "buffer, garbage kind, message count) classes")
     ctx.assumptions += [
@@ -742,8 +749,10 @@ def run(ctx):
         "the syscall result decoding (negative errno) is property C09; close() calls are property C12 and are not compared here",
         "socket model of stream_exact: a stream socket is a FIFO byte queue; a successful write appends a non-empty prefix of the offered bytes, a successful read removes a non-empty prefix of the queued bytes; everything else (readiness, EAGAIN, errors, capacity, scheduling) is adversarial — the kernel's conformance is OBSERVED on real Unix and TCP loopback sockets by this run, not proved",
         "Model/Cmsg.lean `kfill` describes net/core/scm.c scm_detach_fds (checked against the running kernel by the kfill cases); x86_64 layout: cmsghdr 16 bytes, usize 8, Fd 4, little endian",
-        "iter_exact / iter_in_bounds are proved for lists of SCM_RIGHTS messages; foreign message types are covered by the correspondence only",
-        "timing: only `elapsed >= timeout` by CLOCK_MONOTONIC is checked, never exact times",
+        "the iterator theorems (iter_terminates, iter_wellformed, iter_stops_at_malformed_foreign, iter_malformed_rights_*) hold for EVERY content of the control buffer under: msg_control 8-byte aligned, buffer mapped, msg_controllen < 2^63, no wrap of the address space, debug build (overflow checks, slice::from_raw_parts precondition check); the model is compared with the real iterator on every cmsgraw case (clean and hostile)",
+        "the one address-dependent outcome of the iterator (`cmsg + cmsg_len` overflowing or not for an SCM_RIGHTS header) is excluded from the generated cases: offered lengths are < 2^64 - 2^48 or >= 2^64 - 2^16, the driver assumes msg_control = 2^46",
+        "stack depth of the iterator's recursive skip over non-SCM_RIGHTS headers is not modelled (observed: ~32 600 consecutive foreign headers, a 510 KiB control buffer, overflow the 8 MiB stack in the debug build); generated buffers are <= 4 KiB",
+        "timing: `limit <= elapsed <= limit + 3 s` by CLOCK_MONOTONIC is checked, never exact times; Unix streams have no public time-limited read: their O_NONBLOCK flag and an immediate EAGAIN from read(2) are checked instead",
     ]
     ctx.trusted += ["sc-shim syscall interposer (fully scripted kernel for the wrapper runs, pass-through + log for the observations)",
                     "fork + PROT_NONE guard page as the out-of-bounds detector for the real iterator"]
